@@ -1,3 +1,5 @@
+//go:build verif
+
 /*
  * Atree - Scalable Arrays and Ordered Maps
  *
@@ -18,25 +20,25 @@
 
 package atree
 
-import (
-	"bytes"
-	"sync"
-)
+import "sync/atomic"
 
-var bufferPool = sync.Pool{
-	New: func() any {
-		e := new(bytes.Buffer)
-		e.Grow(int(maxThreshold))
-		return e
-	},
+// VerifEventFunc receives events emitted at instrumented points
+// (object pools, commit/preload workers) when built with the "verif" tag.
+type VerifEventFunc func(kind string, obj any)
+
+var verifEventFn atomic.Pointer[VerifEventFunc]
+
+// VerifSetEventFunc installs (or removes, with nil) the event receiver.
+func VerifSetEventFunc(f VerifEventFunc) {
+	if f == nil {
+		verifEventFn.Store(nil)
+		return
+	}
+	verifEventFn.Store(&f)
 }
 
-func getBuffer() *bytes.Buffer {
-	return bufferPool.Get().(*bytes.Buffer)
-}
-
-func putBuffer(e *bytes.Buffer) {
-	verifEvent("buffer.put", e)
-	e.Reset()
-	bufferPool.Put(e)
+func verifEvent(kind string, obj any) {
+	if f := verifEventFn.Load(); f != nil {
+		(*f)(kind, obj)
+	}
 }
